@@ -53,6 +53,7 @@ fn run(cx: &mut Cx, mode: Mode) {
     cx.run();
     if mode == Mode::Complete && cx.ch.chance("concurrent_burst", 1, 8) { crate::scen_burst::proof_burst(cx, false); }
     if mode == Mode::Complete { crate::scen_sweep::proof(cx); }
+    if mode == Mode::Complete && cx.run_index % 4 == 1 { crate::scen_sweep::proof_shape(cx); }
     if mode == Mode::Complete && cx.run_index % 100 == 50 { crate::scen_sweep::draw_counts(cx); }
     if mode == Mode::Complete && cx.run_index % 100 == 51 { crate::scen_sweep::bigproof(cx); }
 }
